@@ -7,8 +7,8 @@ git diff -- src > /tmp/confirm.diff
 [ -s /tmp/confirm.diff ] || { echo "no change applied"; exit 2; }
 L=$(cargo test --offline --lib 2>&1 | grep -E "^test result" | tail -1)
 (cd demo_seeded && cargo run --offline >/tmp/demo_with.log 2>&1); W=$?
-git stash -q -- src
+git apply -R /tmp/confirm.diff
 (cd demo_seeded && cargo run --offline >/tmp/demo_without.log 2>&1); O=$?
-git stash pop -q
+git apply /tmp/confirm.diff
 echo "with change:    demo exit $W ; lib: $L"
 echo "without change: demo exit $O"
